@@ -144,10 +144,27 @@ def corrupt_statement(text, v):
             return None
         m = groups[-1] if v != 15 else groups[0]
         return text[:m.start()] + ("()" if v == 16 else "") + text[m.end():]
+    if v in (17, 18, 19):
+        # one item of a comma-separated list is lost together with a comma: the last item (17), the second item (18),
+        # the item in front of the last comma (19)
+        cs = [i for i, ch in enumerate(text) if ch == ","]
+        if not cs:
+            return None
+        if v == 19:
+            j = cs[-1]
+            i = j - 1
+            while i >= 0 and text[i] not in ",(=":
+                i -= 1
+            return text[:i + 1] + text[j + 1:]
+        i = cs[-1] if v == 17 else cs[0]
+        j = i + 1
+        while j < len(text) and text[j] not in ",)":
+            j += 1
+        return text[:i] + text[j:]
     return None
 
 
-NCORRUPT = 17
+NCORRUPT = 20
 
 
 def systematic_jobs(seed, std, nprog):
